@@ -54,6 +54,8 @@ def gen_cases(tier, seed):
         for align in ("bottom", "center", "top"):
             for N in (12, 15, 16):
                 yield {"kind": "stft", "nchan": nchan, "align": align, "N": N}
+    for nchan in (1, 2, 3):
+        yield {"kind": "stft_defaults", "nchan": nchan}
 
 
 def pattern(shape, dtype):
@@ -372,16 +374,59 @@ def stft_case(case, res):
     res.sample({"stft": {"nchan": nchan, "align": align, "N": N}}, 1)
 
 
+def stft_defaults_case(case, res):
+    """Every way of spelling (or omitting) the optional arguments: the documented defaults are window='boxcar', nperseg=256,
+    noverlap=0, nfft=None for BOTH directions, so a plain istft(stft(z)) inverts."""
+    nchan = case["nchan"]
+    rng = np.random.default_rng(77)
+    for N in (256, 600, 1024):
+        x = rng.uniform(-1, 1, (N, nchan)) + 1j * rng.uniform(-1, 1, (N, nchan))
+        z = factory.make("BasebandSignal", x, sample_rate=1 * u.MHz, fc=400 * u.MHz, align="center", start_name="iso")
+        keep = (N // 256) * 256
+        spellings = [("plain", {}, {}), ("explicit defaults", dict(window="boxcar", nperseg=256, noverlap=0, nfft=None),
+                                         dict(window="boxcar", nperseg=256, noverlap=0, nfft=None)),
+                     ("stft explicit, istft plain", dict(nperseg=256), {}), ("stft plain, istft explicit", {}, dict(nperseg=256)),
+                     ("NumPy integer nperseg", dict(nperseg=np.int64(256)), dict(nperseg=np.int32(256)))]
+        ref = None
+        for name, kw1, kw2 in spellings:
+            sub = {"N": N, "spelling": name}
+            res.state(("stft_defaults", nchan, N, name))
+            try:
+                s_ = pb.contrib.stft(z, **kw1)
+                zi = pb.contrib.istft(s_, **kw2)
+            except Exception as e:
+                res.violation("stft defaults|raised", f"{name}: {type(e).__name__}: {e} [{sub}]", case, sub)
+                continue
+            res.transitions += 2
+            res.traces += 1
+            if s_.shape != (N // 256, 256 * nchan) or zi.shape != (keep, nchan):
+                res.violation("stft defaults|shape", f"{name}: stft {s_.shape}, istft {zi.shape}; expected {(N // 256, 256 * nchan)} and "
+                              f"{(keep, nchan)} [{sub}]", case, sub)
+                continue
+            e = float(np.max(np.abs(np.asarray(zi.data) - x[:keep])))
+            if e > 1e-12 or abs(hz(zi.sample_rate) - hz(z.sample_rate)) > 0 or abs(T(zi.start_time) - T(z.start_time)) > 0 or \
+                    [float(v) for v in np.atleast_1d(zi.channel_freqs.to_value(u.Hz))] != [float(v) for v in np.atleast_1d(z.channel_freqs.to_value(u.Hz))]:
+                res.violation("stft defaults|not inverted", f"{name}: istft(stft(z)) differs from z (max {e:.3g}) or its rate / start / "
+                              f"labels changed [{sub}]", case, sub)
+                continue
+            cur = (np.asarray(s_.data), np.asarray(zi.data))
+            if ref is not None and not (np.array_equal(cur[0], ref[0]) and np.array_equal(cur[1], ref[1])):
+                res.violation("stft defaults|spelling changes the result", f"{name} differs from the plain call [{sub}]", case, sub)
+            ref = ref or cur
+            res.hits["optional arguments omitted / spelled"] += 1
+    res.sample({"stft_defaults": nchan}, 1)
+
+
 def check_case(case):
     res = report.Result()
-    {"fft": fft_case, "names": names_case, "stft": stft_case}[case["kind"]](case, res)
+    {"fft": fft_case, "names": names_case, "stft": stft_case, "stft_defaults": stft_defaults_case}[case["kind"]](case, res)
     return res
 
 
 def main(argv=None):
     return report.run_check(
         PID, gen_cases=gen_cases, check_case=check_case, describe=describe,
-        required_hits=["buffer overwritten between calls", "dask lazy result", "reference raises: pb raises too", "unknown name -> AttributeError",
+        required_hits=["buffer overwritten between calls", "optional arguments omitted / spelled", "dask lazy result", "reference raises: pb raises too", "unknown name -> AttributeError",
                        "tone under the right label", "truncated tail", "odd nperseg", "nperseg == length",
                        "non-center alignment on even nchan"],
         assumptions=["scipy.fft.<name> is the statement's reference; numpy.fft and the long-double DFT definition are independent "
